@@ -99,4 +99,188 @@ theorem exact_of_std {P : PartSpec} (h : IsStd P) (n size : Nat) (hs : 1 ≤ siz
       congr 1
       rw [Int.natCast_add, Int.mul_add]; simp
 
+/-! ## Schedules -/
+
+theorem flatten_perm_of_get {β : Type} : ∀ (logs : List (List β)) (k : Nat) (x : β) (rest : List β),
+    logs[k]? = some (x :: rest) → logs.flatten.Perm (x :: (logs.set k rest).flatten)
+  | [], k, x, rest, h => by simp at h
+  | l :: ls, 0, x, rest, h => by
+      simp at h; subst h; simp
+  | l :: ls, k + 1, x, rest, h => by
+      simp at h
+      have ih := flatten_perm_of_get ls k x rest h
+      simp only [List.flatten_cons, List.set_cons_succ]
+      exact (List.Perm.append_left l ih).trans List.perm_middle
+
+theorem Interleaving.perm {β : Type} {logs : List (List β)} {s : List β} (h : Interleaving logs s) :
+    s.Perm logs.flatten := by
+  induction h with
+  | done hnil =>
+    rename_i logs
+    have : logs.flatten = [] := by
+      simp only [List.flatten_eq_nil_iff]; exact hnil
+    rw [this]
+  | step k x rest hk _ ih =>
+    exact ((List.Perm.cons x ih)).trans (flatten_perm_of_get _ k x rest hk).symm
+
+/-- the sequential schedule (worker 0 to completion, then worker 1, …) is an interleaving -/
+theorem Interleaving.flatten {β : Type} : ∀ (logs : List (List β)), Interleaving logs logs.flatten
+  | [] => Interleaving.done (by simp)
+  | [] :: ls => by
+      have ih := Interleaving.flatten ls
+      simp only [List.flatten_cons, List.nil_append]
+      -- lift: an interleaving of ls is an interleaving of [] :: ls
+      exact lift ih
+  | (x :: l) :: ls => by
+      have ih := Interleaving.flatten (l :: ls)
+      exact Interleaving.step 0 x l (by simp) (by simpa using ih)
+where
+  lift {β : Type} {ls : List (List β)} {s : List β} (h : Interleaving ls s) : Interleaving ([] :: ls) s := by
+    induction h with
+    | done hnil => exact Interleaving.done (by simpa using hnil)
+    | step k x rest hk _ ih => exact Interleaving.step (k + 1) x rest (by simpa using hk) (by simpa using ih)
+
+theorem write_comm {α : Type} (m : Int → α) (a b : Int × α) (h : a.1 ≠ b.1) :
+    write (write m a) b = write (write m b) a := by
+  funext j
+  unfold write
+  by_cases h1 : j = b.1 <;> by_cases h2 : j = a.1
+  · exact absurd (h2.symm.trans h1) h
+  · simp [h1]; intro e; exact absurd e.symm h
+  · simp [h2]; intro e; exact absurd e h
+  · simp [h1, h2]
+
+theorem run_perm {α : Type} {s t : List (Int × α)} (hp : s.Perm t) :
+    (s.map Prod.fst).Nodup → ∀ m : Int → α, run m s = run m t := by
+  induction hp with
+  | nil => intro _ _; rfl
+  | cons x _ ih =>
+    intro hn m
+    simp only [List.map_cons, List.nodup_cons] at hn
+    exact ih hn.2 (write m x)
+  | swap x y l =>
+    intro hn m
+    simp only [List.map_cons, List.nodup_cons, List.mem_cons, not_or] at hn
+    show run (write (write m y) x) l = run (write (write m x) y) l
+    rw [write_comm m y x (fun h => hn.1.1 h)]
+  | trans h1 _ ih1 ih2 =>
+    intro hn m
+    rw [ih1 hn m]
+    exact ih2 ((h1.map Prod.fst).nodup_iff.mp hn) m
+
+theorem run_not_mem {α : Type} : ∀ (s : List (Int × α)) (m : Int → α) (k : Int), k ∉ s.map Prod.fst → run m s k = m k
+  | [], _, _, _ => rfl
+  | e :: t, m, k, h => by
+    simp only [List.map_cons, List.mem_cons, not_or] at h
+    show run (write m e) t k = m k
+    rw [run_not_mem t _ k h.2]
+    simp [write, h.1]
+
+theorem run_of_mem {α : Type} : ∀ (s : List (Int × α)) (m : Int → α) (k : Int) (v : α),
+    (s.map Prod.fst).Nodup → (k, v) ∈ s → run m s k = v
+  | [], _, _, _, _, h => by simp at h
+  | e :: t, m, k, v, hn, h => by
+    simp only [List.map_cons, List.nodup_cons] at hn
+    show run (write m e) t k = v
+    rcases List.mem_cons.mp h with rfl | h
+    · rw [run_not_mem t _ _ hn.1]; simp [write]
+    · exact run_of_mem t _ k v hn.2 h
+
+/-- **Schedule independence.**  If no two stores (of the same or of different workers) hit the same cell, every interleaving
+    of the workers' logs leaves the memory in the same state — the state produced by running the workers one after the other. -/
+theorem interleaving_irrelevant_gen {α : Type} (logs : List (List (Int × α))) (hd : (logs.flatten.map Prod.fst).Nodup)
+    (m : Int → α) (s : List (Int × α)) (hs : Interleaving logs s) : run m s = run m logs.flatten := by
+  have hp := hs.perm
+  exact run_perm hp ((hp.map Prod.fst).nodup_iff.mpr hd) m
+
+
+theorem seqEvents_keys_nodup {α : Type} (g : Int → α) (n : Nat) : ((seqEvents g n).map Prod.fst).Nodup := by
+  unfold seqEvents
+  rw [List.map_map]
+  have : (Prod.fst ∘ fun (k : Nat) => ((k : Int), g (k : Int))) = fun (k : Nat) => (k : Int) := rfl
+  rw [this]
+  refine List.Pairwise.map _ ?_ (List.nodup_range (n := n))
+  intro a b hab h
+  exact hab (Int.ofNat.inj h)
+
+/-- for the standard scheme the loop values of all workers, in worker order, are `0 … n-1` -/
+theorem iters_flatten_of_std {P : PartSpec} (h : IsStd P) (n size : Nat) (hs : 1 ≤ size) :
+    ((intRange 0 (P.workers n size)).map (P.iters n size)).flatten = (List.range n).map Int.ofNat := by
+  have hex := exact_of_std h n size hs
+  unfold Exact PartSpec.visits at hex
+  have : P.worker n size = P.iters n size := by
+    funext i
+    unfold PartSpec.worker
+    have : (List.map P.cbIndex) = (List.map (fun j => j)) := by
+      congr 1; funext j; exact h.cbIndex j
+    rw [this, List.map_id']
+  rw [this] at hex
+  exact hex
+
+/-- the stores of the workers of a standard Modify, taken worker after worker, are literally the stores of the
+    sequential loop `for i, v := range data { modified[i] = f(i, v) }` -/
+theorem storeLogs_flatten_of_std {α : Type} {P : PartSpec} (h : IsStd P) (hr : ∀ j, P.readIndex j = j)
+    (w : Int → Int) (hw : ∀ j, w j = j) (f : Int → α → α) (data : Int → α) (n size : Nat) (hs : 1 ≤ size) :
+    (P.storeLogs w f data n size).flatten = seqEvents (fun k => f k (data k)) n := by
+  unfold PartSpec.storeLogs PartSpec.storeLog
+  have : (fun i => (P.iters n size i).map (fun j => (w j, f (P.cbIndex j) (data (P.readIndex j)))))
+      = (List.map (fun j => (j, f j (data j)))) ∘ (P.iters n size) := by
+    funext i
+    simp only [Function.comp]
+    apply List.map_congr_left
+    intro j _
+    rw [hw, hr, h.cbIndex]
+  rw [this, ← List.map_map, ← List.map_flatten, iters_flatten_of_std h n size hs, List.map_map]
+  rfl
+
+theorem callLogs_flatten_of_std {α : Type} {P : PartSpec} (h : IsStd P) (hr : ∀ j, P.readIndex j = j)
+    (data : Int → α) (n size : Nat) (hs : 1 ≤ size) :
+    (P.callLogs data n size).flatten = seqEvents data n := by
+  unfold PartSpec.callLogs PartSpec.callLog
+  have : (fun i => (P.iters n size i).map (fun j => (P.cbIndex j, data (P.readIndex j))))
+      = (List.map (fun j => (j, data j))) ∘ (P.iters n size) := by
+    funext i
+    simp only [Function.comp]
+    apply List.map_congr_left
+    intro j _
+    rw [hr, h.cbIndex]
+  rw [this, ← List.map_map, ← List.map_flatten, iters_flatten_of_std h n size hs, List.map_map]
+  rfl
+
+/-- Modify, standard scheme: on EVERY schedule the final memory equals the memory after the sequential loop -/
+theorem modify_any_schedule {α : Type} {P : PartSpec} (h : IsStd P) (hr : ∀ j, P.readIndex j = j)
+    (w : Int → Int) (hw : ∀ j, w j = j) (f : Int → α → α) (data : Int → α) (n size : Nat) (hs : 1 ≤ size)
+    (m : Int → α) (s : List (Int × α)) (hsched : Interleaving (P.storeLogs w f data n size) s) :
+    run m s = run m (seqEvents (fun k => f k (data k)) n) := by
+  have e := storeLogs_flatten_of_std h hr w hw f data n size hs
+  have := interleaving_irrelevant_gen (P.storeLogs w f data n size) (by rw [e]; exact seqEvents_keys_nodup _ n) m s hsched
+  rw [this, e]
+
+/-- the memory after the sequential loop: cell `k < n` holds `g k`, every other cell is untouched -/
+theorem run_seqEvents {α : Type} (g : Int → α) (n : Nat) (m : Int → α) (k : Int) :
+    run m (seqEvents g n) k = if 0 ≤ k ∧ k < n then g k else m k := by
+  split
+  · rename_i hk
+    apply run_of_mem _ _ _ _ (seqEvents_keys_nodup g n)
+    unfold seqEvents
+    simp only [List.mem_map, List.mem_range]
+    refine ⟨k.toNat, by omega, ?_⟩
+    have : ((k.toNat : Nat) : Int) = k := by omega
+    rw [this]
+  · rename_i hk
+    apply run_not_mem
+    unfold seqEvents
+    simp only [List.map_map, List.mem_map, List.mem_range, Function.comp]
+    rintro ⟨a, ha, rfl⟩
+    exact hk ⟨by omega, by omega⟩
+
+/-- Scan, standard scheme: on EVERY schedule the callback receives exactly the multiset of (index, value) pairs of the
+    sequential scan -/
+theorem scan_any_schedule {α : Type} {P : PartSpec} (h : IsStd P) (hr : ∀ j, P.readIndex j = j)
+    (data : Int → α) (n size : Nat) (hs : 1 ≤ size)
+    (s : List (Int × α)) (hsched : Interleaving (P.callLogs data n size) s) :
+    s.Perm (seqEvents data n) := by
+  have := hsched.perm
+  rwa [callLogs_flatten_of_std h hr data n size hs] at this
+
 end PolyVerif.Par
